@@ -217,6 +217,8 @@ pub(super) fn move_while_borrowed(
             }
         });
 
+        // The `Clone` nodes that we insert while processing this node.
+        let mut new_clone_nodes: Vec<(NodeIndex, NodeIndex)> = Vec::new();
         'dependencies: for edge_id in dependency_edge_ids {
             let dependency_index = call_graph.edge_endpoints(edge_id).unwrap().0;
             match call_graph.edge_weight(edge_id).unwrap() {
@@ -224,7 +226,7 @@ pub(super) fn move_while_borrowed(
                     if borrowed_immutably_now.contains(&dependency_index)
                         || borrowed_later.contains(&dependency_index)
                     {
-                        try_clone(
+                        if let Some(clone_node_id) = try_clone(
                             &mut call_graph,
                             node_index,
                             edge_id,
@@ -235,7 +237,9 @@ pub(super) fn move_while_borrowed(
                             krate_collection,
                             root_scope_id,
                             diagnostics,
-                        )
+                        ) {
+                            new_clone_nodes.push((clone_node_id, dependency_index));
+                        }
                     }
                 }
                 CallGraphEdgeMetadata::ExclusiveBorrow => {
@@ -262,6 +266,15 @@ pub(super) fn move_while_borrowed(
         let mut borrowed = borrowed_immutably_now;
         borrowed.extend(&borrowed_mutably_now);
         borrowed.extend(&borrowed_later);
+        // The traversal won't visit the `Clone` nodes we've just added (the successors of their
+        // source were enumerated before they existed), but their source will look at them to
+        // determine what gets borrowed later on: a `Clone` node borrows its source and sits
+        // upstream of everything that the current node sits upstream of.
+        for (clone_node_id, cloned_node_id) in new_clone_nodes {
+            let mut clone_borrows = borrowed.clone();
+            clone_borrows.insert(cloned_node_id);
+            node2borrows.insert(clone_node_id, clone_borrows);
+        }
         node2borrows.insert(node_index, borrowed);
         visited_nodes.insert(node_index);
 
@@ -299,11 +312,11 @@ fn try_clone(
     krate_collection: &CrateCollection,
     root_scope_id: ScopeId,
     diagnostics: &crate::diagnostic::DiagnosticSink,
-) {
+) -> Option<NodeIndex> {
     let dependency_index = call_graph.edge_endpoints(edge_id).unwrap().0;
     if copy_checker.is_copy(call_graph, dependency_index, component_db, computation_db) {
         // You can't have a "borrow after moved" error for a Copy type.
-        return;
+        return None;
     }
 
     let clone_component_id = call_graph[dependency_index].component_id().and_then(|id| {
@@ -326,7 +339,7 @@ fn try_clone(
             call_graph,
             diagnostics,
         );
-        return;
+        return None;
     };
 
     let clone_node_id = call_graph.add_node(CallGraphNode::Compute {
@@ -343,6 +356,7 @@ fn try_clone(
     );
     call_graph.update_edge(clone_node_id, node_index, CallGraphEdgeMetadata::Move);
     call_graph.remove_edge(edge_id);
+    Some(clone_node_id)
 }
 
 fn emit_ancestor_descendant_borrow_error(
